@@ -627,6 +627,12 @@ func c10P4(p *Prog, s *c10Site) {
 	for _, g := range guardsOf(s.ins) {
 		a := g.Lit.Atom
 		if strings.Contains(a, "len("+d+")") || a == "("+d+` == "")` {
+			// when the guard has a recognisable shape, the length it establishes must
+			// cover the access (a test against a smaller constant is not a guard:
+			// seeded change C10 compared with secretbox.Overhead = 16 before enc[:24])
+			if lb, known := c10LenLowerBound(g.Lit, d); known && lb < need {
+				continue
+			}
 			s.okWhy = "dominating length/emptiness test " + g.Lit.String()
 			return
 		}
